@@ -9,6 +9,7 @@ reference model of its documented routing for every input shape, split dimension
 the bound, in both directions (inverse o forward == identity, term-wise).
 """
 import itertools
+import json
 import sys
 
 import numpy as np
@@ -155,6 +156,92 @@ def job_composite(cfg):
     return jr
 
 
+# ---- wrapper programs: every nesting of Composite / Inverse over the stages, up to a depth -----------------------
+
+def gen_trees(leaves, depth):
+    """all wrapper programs over the ordered leaf stages: a leaf index, ("C", [children...]) or ("I", child)."""
+    out = []
+    if len(leaves) == 1:
+        out.append(leaves[0])
+    if depth > 0:
+        n = len(leaves)
+        # every way to cut the sequence into k >= 1 consecutive groups
+        for cuts in itertools.product((0, 1), repeat=n - 1):
+            groups, cur = [], [leaves[0]]
+            for i, c in enumerate(cuts):
+                if c:
+                    groups.append(cur)
+                    cur = []
+                cur.append(leaves[i + 1])
+            groups.append(cur)
+            if len(groups) == 1 and n > 1:
+                continue  # (a composite of the single group would recurse on the same leaves)
+            for children in itertools.product(*[gen_trees(g, depth - 1) for g in groups]):
+                out.append(("C", list(children)))
+        for sub in gen_trees(leaves, depth - 1):
+            if not (isinstance(sub, tuple) and sub[0] == "I"):
+                out.append(("I", sub))
+    return out
+
+
+def build_tree(node, stages):
+    if isinstance(node, int):
+        return stages[node]
+    if node[0] == "C":
+        return B.CompositeTransform([build_tree(c, stages) for c in node[1]])
+    return B.InverseTransform(build_tree(node[1], stages))
+
+
+def ref_tree(node, stages, z, inv):
+    """reference semantics, written from the documentation: a composite applies its parts in order (its inverse: the
+    parts' inverses in reverse order); an inverse wrapper swaps the directions; log-abs-dets add up."""
+    if isinstance(node, int):
+        return stages[node].inverse(z) if inv else stages[node](z)
+    if node[0] == "I":
+        return ref_tree(node[1], stages, z, not inv)
+    lad = None
+    for c in (reversed(node[1]) if inv else node[1]):
+        z, l = ref_tree(c, stages, z, inv)
+        lad = l if lad is None else lad + l
+    return z, lad
+
+
+def show_tree(node):
+    if isinstance(node, int):
+        return "s%d" % node
+    if node[0] == "C":
+        return "C[%s]" % ",".join(show_tree(c) for c in node[1])
+    return "I(%s)" % show_tree(node[1])
+
+
+def job_programs(cfg):
+    timeout = cfg["timeout"]
+    R = sc.new_registry()
+    solver = smt.Z3Proc()
+    jr = C01.new_jr("CompositeTransform/InverseTransform")
+    checks = 0
+    with stubs.torch_patches():
+        for n, tree in cfg["trees"]:
+            stages = [affine(i) for i in range(n)]
+            asm = [nz(i) for i in range(n)]
+            x = stubs.named_tensor("x", (1, 2))
+            comp = build_tree(tree, stages)
+            comp.eval()
+            name = "program/%s" % show_tree(tree)
+            for dname, inv in (("forward", False), ("inverse", True)):
+                out, lad = comp.inverse(x) if inv else comp(x)
+                ro, rl = ref_tree(tree, stages, x, inv)
+                err = eq_terms(R, solver, out, ro, asm, timeout) or lad_equal(R, solver, lad, rl, asm, timeout)
+                checks += 1
+                jr["outcomes"].append({"name": "%s/%s==reference-semantics" % (name, dname), "kind": "goal", "status": "unsat" if err is None else "sat", "s": 0.0, "expect": "unsat", "detail": err or ""})
+                if err is not None and not any(v["relation"] == "program-semantics" for v in jr["violations"]):
+                    record_violation(jr, "program-semantics", {"direction": dname}, {"kind": "program", "n": n, "shape": [2], "direction": dname, "nesting": json.dumps(tree)}, err)
+    jr["paths"] = checks
+    jr["samples"].append({"programs": [show_tree(t) for _, t in cfg["trees"][:6]], "claim": "wrapper output terms and log-abs-det == the recursive reference semantics"})
+    solver.close()
+    return jr
+
+
 def ms_reference(stages, shapes_after, split_dim, x):
     """reference model of the documented multiscale routing (RealNVP): after every stage but the last the
     result is split in two along split_dim; the first half is output as it is, the second goes on."""
@@ -253,6 +340,22 @@ def replay(kind, n, shape, direction, nesting=None, split_dim=1, perm=False):
         stages = [ST.PointwiseAffineTransform(shift=float(i + 1) * 0.37, scale=float(i + 2) * 0.61) for i in range(n)]
         x = torch.randn((3,) + tuple(shape), dtype=torch.float32).double()
         stages = [s.double() for s in stages]
+        if kind == "program":
+            tree = json.loads(nesting)
+
+            def norm(t):
+                return t if isinstance(t, int) else ((t[0], [norm(c) for c in t[1]]) if t[0] == "C" else (t[0], norm(t[1])))
+
+            tree = norm(tree)
+            comp = build_tree(tree, stages)
+            inv = direction != "forward"
+            out, lad = comp.inverse(x) if inv else comp(x)
+            z, tot = ref_tree(tree, stages, x, inv)
+            res["program"] = show_tree(tree)
+            res["max_err"] = float((out - z).abs().max())
+            res["lad_err"] = float((lad - tot).abs().max())
+            res["reproduced"] = res["max_err"] > 1e-9 or res["lad_err"] > 1e-9
+            return res
         if kind == "composite":
             if perm and len(shape) == 1 and shape[0] > 1:
                 stages.insert(1, PM.ReversePermutation(shape[0]))
@@ -309,6 +412,8 @@ def replay(kind, n, shape, direction, nesting=None, split_dim=1, perm=False):
 
 
 def job(cfg):
+    if cfg["type"] == "programs":
+        return job_programs(cfg)
     return job_composite(cfg) if cfg["type"] == "composite" else job_multiscale(cfg)
 
 
@@ -320,6 +425,13 @@ def configs(tier):
             for shape in ((2,), (2, 1, 2)):
                 cfgs.append({"type": "composite", "n": n, "nesting": nesting, "shape": list(shape), "timeout": t})
         cfgs.append({"type": "composite", "n": n, "nesting": "flat", "shape": [3], "perm": True, "timeout": t})
+    # wrapper programs: every nesting of Composite / Inverse over 1-3 stages up to depth 3 (quick) / 4 (thorough)
+    progs = []
+    for n in (1, 2, 3):
+        for tree in gen_trees(list(range(n)), 3 if tier == "quick" else 4):
+            progs.append((n, tree))
+    for i in range(0, len(progs), 40):
+        cfgs.append({"type": "programs", "trees": progs[i:i + 40], "timeout": t})
     maxc, maxhw = (4, 4) if tier == "quick" else (8, 6)
     shapes = set()
     for c in range(1, maxc + 1):
@@ -341,7 +453,7 @@ def main():
     cfgs = configs(C.TIER)
     rep.functions = C.source_hash([B.CompositeTransform, B.MultiscaleCompositeTransform, B.InverseTransform, ST.PointwiseAffineTransform])
     ms = [c for c in cfgs if c["type"] == "multiscale"]
-    rep.bounds = {"composite": "1-3 non-commuting affine stages (+ a permutation), nestings flat / nested / inverse-of-composite / composite-of-inverses, 2-D and image inputs, both directions", "multiscale": "%d (shape, split_dim, stages) combinations: shapes up to %s, every split dimension, 1-3 stages, odd and even sizes" % (len(ms), max(tuple(c["shape"]) for c in ms))}
+    rep.bounds = {"wrapper_programs": "every nesting of CompositeTransform / InverseTransform over 1-3 ordered non-commuting stages up to depth %d: %d programs, both directions" % (3 if C.TIER == "quick" else 4, sum(len(c["trees"]) for c in cfgs if c["type"] == "programs")), "composite": "1-3 non-commuting affine stages (+ a permutation), nestings flat / nested / inverse-of-composite / composite-of-inverses, 2-D and image inputs, both directions", "multiscale": "%d (shape, split_dim, stages) combinations: shapes up to %s, every split dimension, 1-3 stages, odd and even sizes" % (len(ms), max(tuple(c["shape"]) for c in ms))}
     rep.assumptions = ["stages are library affine transforms with symbolic non-zero scale and symbolic shift; two batch rows", "the reference for the multiscale routing is a 20-line model of the documented behaviour (first half out, second half on)"]
     rep.stubs = ["PointwiseAffineTransform buffers replaced by symbols"]
     for jr in C.run_jobs(job, cfgs):
